@@ -333,6 +333,86 @@ def interrupt_scn(sx, op):
     return dict(result=C.describe(status, v), sleeps=st['n'], log=log)
 
 
+# ----------------------------------------------------------------------------
+# closed while waiting: another thread wins the race for the free lock at the
+# entry point's lock acquisition, closes the frontend and releases the lock
+# ----------------------------------------------------------------------------
+RACE_OPS = ["sense", "listen", "exchange-cmd", "exchange-rsp",
+            "max_send_data_size", "max_recv_data_size", "close"]
+
+
+def close_race_scn(sx, op):
+    """clf.close() by another thread is ordered immediately before the entry
+    point's (first) acquisition of clf.lock, i.e. after anything the entry
+    point looked at without the lock.  The entry point then runs on a closed
+    frontend: it makes no driver call (the driver object is closed) and ends
+    as documented for a closed frontend - IOError(ENODEV), or None/False for
+    close() - never in an exception of another type."""
+    import errno
+    log, bad = [], []
+    tr = Trace()
+    envo = SlotEnv(sx, tr)
+    dev = RecDevice(sx, envo, tr)
+    dev.hook = make_hook(sx, log, bad)
+    clf = make_frontend(dev)
+    if op == "exchange-cmd":
+        dev.entry = "sense"
+        args = [C.mk_target(sx, "A")]
+        envo.program(args, ["ok"], (0, 0), lambda t: C.mk_response(sx, "A"))
+        clf.sense(*args)
+    elif op == "exchange-rsp":
+        dev.entry = "listen"
+        envo.listen_script = "found"
+        envo.response = lambda k: nfc.clf.LocalTarget(
+            "212F", tt3_cmd=sx.mkbytes([0x00, 0xFF, 0xFF, 0x01, 0x00]))
+        clf.listen(C.mk_local(sx, "ttf"), 0.1)
+    guard = clf.guard_lock
+    closed = [False]
+
+    def other_thread_closes():
+        hook, dev.hook = dev.hook, None      # (the other thread's own driver call)
+        try:
+            clf.close()
+        finally:
+            dev.hook = hook
+        closed[0] = True
+    guard.before_grant = other_thread_closes
+    dev.entry = op
+    ncalls = dev.ncalls
+    if op == "sense":
+        st, v = C.call(clf.sense, C.mk_target(sx, "A"), C.mk_target(sx, "F"))
+    elif op == "listen":
+        st, v = C.call(clf.listen, C.mk_local(sx, "ttf"), 0.1)
+    elif op.startswith("exchange"):
+        st, v = C.call(clf.exchange, sx.mkbytes([0x30, 0x00]), 0.1)
+    elif op == "max_send_data_size":
+        st, v = C.call(lambda: clf.max_send_data_size)
+    elif op == "max_recv_data_size":
+        st, v = C.call(lambda: clf.max_recv_data_size)
+    elif op == "close":
+        st, v = C.call(clf.close)
+    else:
+        raise ValueError(op)
+    if not closed[0]:
+        bad.append("entry-point-took-no-lock:" + op)
+    else:
+        sx.reach("close-race:%s:closed-before-lock" % op)
+    if dev.ncalls != ncalls + 1:          # (+1: the other thread's close())
+        bad.append("driver-call-on-closed-device:" + op)
+    if st == "exc":
+        if not (isinstance(v, IOError) and v.errno == errno.ENODEV):
+            bad.append("closed-frontend:%s:raised-%s" % (op, type(v).__name__))
+    elif st != "ok":
+        bad.append("closed-frontend:%s:no-return" % op)
+    if clf.lock.locked():
+        bad.append("lock-left-held-after:" + op)
+    if bad:
+        sx.check(False, bad[sx.pick("report", list(range(len(bad))))])
+    else:
+        sx.check(True, "closed frontend handled")
+    return dict(result=C.describe(st, v), log=log)
+
+
 def sense_scn(sx, **params):
     return run(sx, "sense_scn", **params)
 
@@ -371,6 +451,8 @@ def partitions(tier):
     for op in CONTENDED_OPS:
         parts.append(dict(name="contended:" + op, fn="contended_scn",
                           params=dict(op=op)))
+    for op in RACE_OPS:
+        parts.append(dict(name="close-race:" + op, fn="close_race_scn", params=dict(op=op)))
     for op in INTERRUPT_OPS:
         parts.append(dict(name="interrupted:" + op, fn="interrupt_scn", params=dict(op=op)))
     g = 8 if tier == "thorough" else 6
@@ -396,7 +478,8 @@ MUST_REACH = [d[0] for d in DIRECT] + [i[0] for i in INDIRECT] + \
                             "stale_scn", "lifecycle_scn")] + \
     ["contended:%s:waits" % op for op in CONTENDED_OPS] + \
     ["contended:connect:waits-for-lock"] + \
-    ["interrupt:%s:%s" % (op, w) for op in INTERRUPT_OPS for w in ("slept", "interrupted")]
+    ["interrupt:%s:%s" % (op, w) for op in INTERRUPT_OPS for w in ("slept", "interrupted")] + \
+    ["close-race:%s:closed-before-lock" % op for op in RACE_OPS]
 
 BOUNDS = {
     "quick": "every driver call on every path of the C18 scenarios (quick "
@@ -429,7 +512,11 @@ BOUNDS = {
              "go of it and where KeyboardInterrupt may arrive (first three "
              "sleeps): the entry point releases only a lock it holds, enters "
              "no driver method while the other thread owns the lock, leaves "
-             "no lock held",
+             "no lock held.  CLOSE-RACE family: close() by another "
+             "thread is ordered immediately before the first lock acquisition "
+             "of sense, listen, exchange (both directions), the size "
+             "properties and close: no driver call on the closed driver, "
+             "IOError(ENODEV) or a normal return, no other exception",
     "thorough": "as quick with the thorough bounds of harness/c18_connect.py",
 }
 OUTSIDE = [
